@@ -23,7 +23,7 @@ PROPS = {
     'C04': P('proof', ['C04'], 'XYB forward: theorems + correspondence + f64 oracle'),
     'C05': P('proof', ['C05'], 'XYB round trip: theorems + correspondence + f64 oracle'),
     'C06': P('proof', ['C06'], 'primaries conversion: theorems (identical primaries bit-exact, evaluated matrices) + correspondence on all 14 primaries + f64 CIE oracle'),
-    'C07': P('proof', ['C07'], 'no UB: loop-safety invariants, constructor invariant, exp2 argument range for every bit pattern + outcome-class correspondence with hook assertions'),
+    'C07': P('proof', ['C07'], 'no UB: loop-safety invariants, constructor invariant, exp2 argument range for every bit pattern + outcome-class correspondence with hook assertions', partial=['exp2 to_int_unchecked argument range for every f32 bit pattern: theorem pending (Props/C18), covered by correspondence on special floats with the hook assertion']),
     'C08': P('proof', ['C08'], 'lossless code round trip: theorems + correspondence + exhaustive 8-bit search in the thorough tier'),
     'C09': P('proof', ['C09'], 'YUV->XYB->YUV budget: dims/config theorems, numeric budget partial (see partial) + correspondence + search'),
     'C10': P('proof', ['C10'], 'gamma->linear->gamma: theorems as listed + correspondence + search'),
